@@ -260,8 +260,12 @@ class C05(Prop):
     id = "C05"
     title = "after any LPC error the machine state is as before the failed call"
     lean_modules = ["NV.C05.Props", "NV.C05.Witness"]
-    theorems = []
-    witness_theorems = []
+    theorems = ["NV.C05.restore_is_inverse", "NV.C05.handlers_run_exactly_once", "NV.C05.handler_not_run_on_normal_exit",
+                "NV.C05.catch_yields_message", "NV.C05.raise_sets_catch_value", "NV.C05.throw_sets_catch_value",
+                "NV.C05.context_chain_restored_catch", "NV.C05.context_chain_restored_safe",
+                "NV.C05.context_chain_restored_top", "NV.C05.raise_not_ok", "NV.C05.guards_reset",
+                "NV.C05.install_atomic", "NV.C05.restoreContext_ext", "NV.C05.popN_append"]
+    witness_theorems = ["NV.C05.negative_pop_is_a_crash", "NV.C05.changed_register_is_not_restored"]
     consts = [("frameFunction", "FRAME_FUNCTION"), ("frameFunp", "FRAME_FUNP"), ("frameCatch", "FRAME_CATCH"),
               ("frameFake", "FRAME_FAKE"), ("frameMask", "FRAME_MASK"),
               ("esStackFull", "ES_STACK_FULL"), ("esMaxEvalCost", "ES_MAX_EVAL_COST"),
